@@ -26,6 +26,7 @@ LINE_CAP = 6000
 CALL_CAP = 3000
 SCHED2_K = 120         # two-preemption schedules: first preemption at points < SCHED2_K, second at points < SCHED2_J
 SCHED2_J = 120
+MISC_CAP = 6000
 ENTRIES = ['conelp', 'lp', 'socp', 'sdp', 'coneqp', 'qp', 'cpl', 'cp', 'gp', 'opsolve']
 
 
@@ -152,6 +153,13 @@ def cases(tier, seed, flavour):
         for start in (0, 1):
             for lo in range(0, CALL_CAP, 100):
                 yield {'part': 'sched', 'pair': list(pr), 'gran': 'call', 'start': start, 'lo': lo, 'hi': lo + 100, 'seed': seed}
+    # two SDP solves with 's' blocks of the same order, every line of misc.py (scalings, KKT solvers, cone kernels: the
+    # code with per-call work arrays) a scheduling point
+    yield {'part': 'sched-count', 'pair': ['sdp', 'sdp'], 'gran': 'line', 'seed': seed, 'cap': MISC_CAP, 'scope': 'misc'}
+    for start in (0, 1):
+        for lo in range(0, MISC_CAP, 125):
+            yield {'part': 'sched', 'pair': ['sdp', 'sdp'], 'gran': 'line', 'start': start, 'lo': lo, 'hi': lo + 125, 'seed': seed,
+                   'scope': 'misc'}
     if tier == 'thorough':
         for pr in call_pairs[:2]:
             for start in (0, 1):
@@ -358,7 +366,7 @@ def run_hist(case):
 
 
 # ------------------------------------------------------------------------------------------------ part 3
-def _bodies(pair, seed):
+def _bodies(pair, seed, scope=None):
     import cvxopt
     from cvxopt import solvers
     solvers.options.clear()
@@ -372,13 +380,16 @@ def _bodies(pair, seed):
         argss.append(args)
     bodies = [(lambda c=calls[i], o=optsets[i]: _do(c, dict(o))) for i in range(len(pair))]
     pkg = os.path.dirname(os.path.abspath(cvxopt.__file__))
+    if scope:
+        # scheduling points only inside one module (e.g. misc.py: scalings, KKT solvers, cone kernels)
+        return bodies, argss, (lambda f: f.startswith(pkg) and os.path.basename(f) == scope + '.py')
     return bodies, argss, (lambda f: f.startswith(pkg))
 
 
 def run_sched(case):
     from mc import cvx
     pair = case['pair']
-    bodies, argss, scope = _bodies(pair, case['seed'])
+    bodies, argss, scope = _bodies(pair, case['seed'], case.get('scope'))
     seq = [_image(b()) for b in bodies]                 # sequential results (same process, same options)
     args0 = [cvx.image(a) for a in argss]
     viol = []
